@@ -27,6 +27,7 @@ def check(tree, rep, tier='quick', seed=0):
     R.k5_who_writes(core, rep)
     R.k6_single_value_writer(core, rep)
     R.k7_missing_key_raises(core, rep)
+    R.k11_input_gate(core, rep)          # 'or it aborts with an error (... an invalid input)'
     l1_access(tree, rep)
     rep.floor('core functions modelled', len(core.funcs), 120)
     R.k24_tracker_shape(core, rep, parts=('a', 'b'))
